@@ -12,8 +12,8 @@ import (
 )
 
 type Sx struct {
-	Atom string
-	List []*Sx
+	Atom   string
+	List   []*Sx
 	IsList bool
 }
 
